@@ -128,9 +128,9 @@ take priority over `insecure` ("Prioritize GRPCCredentials over Insecure"). -/
 def e2eUsesTLS (exp : Exp) (certVar : Bool) (insecure : Bool) : Bool :=
   if exp.isHttp || exp.isLog then !insecure else (certVar || !insecure)
 
-/-- does the exporter trust the harness CA? Through OTEL_EXPORTER_OTLP_CERTIFICATE — which otlploggrpc loads but never
-hands to its dial options (known finding F39, `Spec.F39_applies`). -/
-def e2eTrustsCA (exp : Exp) (certVar : Bool) : Bool := certVar && exp != .lg
+/-- does the exporter trust the harness CA? Through OTEL_EXPORTER_OTLP_[<SIGNAL>_]CERTIFICATE, for each of the six
+exporters (otlploggrpc since the F39 repair, /repo b14f3c7: the loaded TLS config is handed to the dial options). -/
+def e2eTrustsCA (_exp : Exp) (certVar : Bool) : Bool := certVar
 
 structure E2EObs where
   who : String
@@ -186,7 +186,6 @@ def e2eLine (inp obs : List String) : Option Verdict :=
     let through := !usesTLS || e2eTrustsCA exp certVar
     let modelStr := s!"{hexOf m.endpoint} {if exp.isHttp then hexOf m.path else "-"} tls={b2s usesTLS} through={b2s through} {renderHdrs (wireHdrs m.headers)} {b2s m.comp} {m.timeout}"
     let f20 := Spec.F20_applies exp parse e os
-    let f39 := Spec.F39_applies exp certVar m.insecure
     let epX := Spec.expectedEndpoint exp parse e os
     let (agree, spec) : Bool × String :=
       match obs with
@@ -198,11 +197,10 @@ def e2eLine (inp obs : List String) : Option Verdict :=
         if who == "-" || who == "multi" || path == "?" then
           -- nothing got through: at most a TLS handshake was seen. The model says whether that is expected.
           let agree := agreeWho && (who == "-" || (who != "multi" && plain == "0" && usesTLS && !through))
-          -- a failed handshake although the certificate variable names the collector's CA is a failure — known
-          -- only in exactly the F39 way; without the variable the CA is not trusted and nothing can get through
+          -- a failed handshake although the certificate variable names the collector's CA is a failure for every
+          -- exporter (F39 repaired); without the variable the CA is not trusted and nothing can get through
           (agree, if !specWho then "FAIL"
                   else if who == "-" then "ok"
-                  else if f39 then "KNOWN:F39"
                   else if certVar then "FAIL" else "ok")
         else
           let (mRest, mPath) := e2eRequestOK exp stallNs (· == m.path) m.headers m.comp m.timeout o
@@ -229,7 +227,6 @@ def e2eLine (inp obs : List String) : Option Verdict :=
                     (Spec.provTimeout exp e.toG).isSome ]
       ++ (if exp.isHttp then [pathTag] else [])
       ++ (if f20 then ["F20"] else [])
-      ++ (if f39 then ["F39"] else [])
       ++ (if usesTLS then [if through then "tls" else "tls-untrusted"] else ["clear"])
       ++ (if m.comp then ["gzip"] else [])
       ++ (if stallNs != 0 then [if 0 < m.timeout && m.timeout < stallNs then "timeout-fires" else "stall-outlived"] else [])
